@@ -9,6 +9,7 @@ import (
 	"math"
 	"sort"
 	"strings"
+	"time"
 )
 
 // C04Norm is the documented normal form of one key cell.
@@ -213,13 +214,18 @@ func C04IdenticalTuple(a, b []Val) bool {
 // at most the number of C04EStrict classes. exact reports lo == hi and, in
 // that case, reps holds the index of the first member of every class.
 func C04DistinctBounds(vs []Val, strict bool) (lo, hi int, reps []int) {
+	return C04DistinctBoundsF(vs, strict, nil)
+}
+
+// C04DistinctBoundsF: C04DistinctBounds in a session with user datetime formats.
+func C04DistinctBoundsF(vs []Val, strict bool, formats []string) (lo, hi int, reps []int) {
 	var ns []C04Norm
 	var idx []int
 	for i, v := range vs {
 		if v.IsNull() {
 			continue
 		}
-		ns = append(ns, C04Normalise(v, strict))
+		ns = append(ns, C04NormaliseF(v, strict, formats))
 		idx = append(idx, i)
 	}
 	n := len(ns)
@@ -374,4 +380,93 @@ func C04Extreme(vs []Val, sign int) (idx []int, ok bool) {
 		}
 	}
 	return idx, true
+}
+
+// ---- session datetime formats (@@DATETIME_FORMAT) ------------------------
+
+// C04GoLayout translates a csvq datetime format into a Go time layout after
+// the placeholder table of the manual (datetime-functions.md, "Format
+// Placeholders"); other characters stand for themselves (a Go layout can be
+// given directly).
+func C04GoLayout(format string) string {
+	table := map[rune]string{
+		'a': "Mon", 'b': "Jan", 'c': "1", 'd': "02", 'E': "_2", 'e': "2", 'F': ".999999", 'f': ".000000",
+		'H': "15", 'h': "03", 'i': "04", 'l': "3", 'M': "January", 'm': "01", 'N': ".999999999", 'n': ".000000000",
+		'p': "PM", 'r': "03:04:05 PM", 's': "05", 'T': "15:04:05", 'W': "Monday", 'Y': "2006", 'y': "06",
+		'Z': "Z07:00", 'z': "MST",
+	}
+	var b strings.Builder
+	esc := false
+	for _, r := range format {
+		if !esc {
+			if r == '%' {
+				esc = true
+			} else {
+				b.WriteRune(r)
+			}
+			continue
+		}
+		if s, ok := table[r]; ok {
+			b.WriteString(s)
+		} else {
+			b.WriteRune(r)
+		}
+		esc = false
+	}
+	return b.String()
+}
+
+// C04UserDatetime parses a text with the session's datetime formats, in the
+// order they were set, in the session time zone (UTC).
+func C04UserDatetime(v Val, formats []string) (time.Time, bool) {
+	if v.K != "S" {
+		return time.Time{}, false
+	}
+	s := trimBlank(v.S)
+	for _, f := range formats {
+		if t, err := time.ParseInLocation(C04GoLayout(f), s, time.UTC); err == nil {
+			return t, true
+		}
+	}
+	return time.Time{}, false
+}
+
+// C04NormaliseF is C04Normalise for a session with user datetime formats: on
+// the datetime rung a text is read with the user formats first, then with the
+// built-in layouts.
+func C04NormaliseF(v Val, strict bool, formats []string) C04Norm {
+	if strict || len(formats) == 0 || v.K != "S" {
+		return C04Normalise(v, strict)
+	}
+	if _, ok := AsInteger(v); ok {
+		return C04Normalise(v, strict)
+	}
+	if _, ok := AsFloat(v); ok {
+		return C04Normalise(v, strict)
+	}
+	if d, ok := C04UserDatetime(v, formats); ok {
+		return C04Norm{T: 'D', I: d.UnixNano()}
+	}
+	return C04Normalise(v, strict)
+}
+
+func C04NormaliseTupleF(vs []Val, strict bool, formats []string) C04Tuple {
+	t := make(C04Tuple, len(vs))
+	for i, v := range vs {
+		t[i] = C04NormaliseF(v, strict, formats)
+	}
+	return t
+}
+
+// C04OutsideModelF: OutsideModel, except for texts one of the session's
+// datetime formats reads.
+func C04OutsideModelF(v Val, formats []string) bool {
+	if _, ok := C04UserDatetime(v, formats); ok {
+		if _, isInt := AsInteger(v); !isInt {
+			if _, isFloat := AsFloat(v); !isFloat {
+				return false
+			}
+		}
+	}
+	return OutsideModel(v)
 }
